@@ -86,12 +86,97 @@ func realCipher(kind string) cipherfs.Cipher {
 	return extcfs.NewDefaultCipher()
 }
 
+// spare returns a copy of b with spare capacity (cap > len), as a slice cut out of a larger read buffer has.
+func spare(b []byte) []byte {
+	out := make([]byte, len(b), len(b)+64)
+	copy(out, b)
+	return out
+}
+
+// scribble overwrites a caller-side buffer in its whole capacity: the content is inverted, the spare part filled.
+func scribble(b []byte) {
+	full := b[:cap(b)]
+	for i := range full {
+		if i < len(b) {
+			full[i] ^= 0xff
+		} else {
+			full[i] = 0xa5
+		}
+	}
+}
+
+// newEnc builds an encrypted filespace the way a caller may: Secret and Salt are slices with spare capacity,
+// and the caller wipes/reuses both buffers right after the constructor returned.  The settings handed in are
+// the caller's; an existing filespace must not depend on what happens to them later (snapshot principle).
 func newEnc(base FS, hostOnly bool, secret, salt []byte, c cipherfs.Cipher) FS {
-	fs, err := encryptfs.NewEncryptFS(base, encryptfs.Settings{Salt: salt, Secret: secret, HostOnly: hostOnly, Cipher: c})
+	sec, sal := spare(secret), spare(salt)
+	fs, err := encryptfs.NewEncryptFS(base, encryptfs.Settings{Salt: sal, Secret: sec, HostOnly: hostOnly, Cipher: c})
 	if err != nil {
 		panic(err)
 	}
+	scribble(sec)
+	scribble(sal)
 	return fs
+}
+
+// sharedMatrix runs several filespaces side by side whose settings are cut out of SHARED backing arrays: every
+// one gets the very same Secret slice (with spare capacity) and a salt that is a sub-slice of one common array
+// (so each salt's capacity runs over the following salts).  Filespace i is built, then writes its own file,
+// before filespace i+1 is built.  With mutate, both arrays are scribbled over afterwards.  Answer: for every
+// reader i a word over {s,o,e,p}: file j read back the same / other data / error / panic.
+func sharedMatrix(c cipherfs.Cipher, base FS, hostOnly bool, secret []byte, salts [][]byte, mutate bool, wp, rp string) string {
+	secBuf := spare(secret)
+	saltArr := spare(bytes.Join(salts, nil))
+	var (
+		fss  []FS
+		data [][]byte
+		off  int
+	)
+	for i, salt := range salts {
+		sl := saltArr[off : off+len(salt)] // cap reaches to the end of the array
+		off += len(salt)
+		fs, err := encryptfs.NewEncryptFS(base, encryptfs.Settings{Salt: sl, Secret: secBuf, HostOnly: hostOnly, Cipher: c})
+		if err != nil {
+			return "infra-error " + err.Error()
+		}
+		fss = append(fss, fs)
+		d := []byte(fmt.Sprintf("data written by filespace number %d", i))
+		data = append(data, d)
+		var werr error
+		if p, _ := hx.Guard(func() { werr = writeVia(fs, fmt.Sprintf("f%d.bin", i), wp, [][]byte{d}) }); p {
+			return "m=wpanic"
+		}
+		if werr != nil {
+			return "m=werr"
+		}
+	}
+	if mutate {
+		scribble(secBuf)
+		scribble(saltArr)
+	}
+	rows := make([]string, len(fss))
+	for i, fs := range fss {
+		row := make([]byte, len(fss))
+		for j := range fss {
+			var (
+				parts []part
+				err   error
+			)
+			pan, _ := hx.Guard(func() { parts, err = readVia(fs, fmt.Sprintf("f%d.bin", j), rp, nil) })
+			switch {
+			case pan:
+				row[j] = 'p'
+			case err != nil:
+				row[j] = 'e'
+			case bytes.Equal(content(parts), data[j]):
+				row[j] = 's'
+			default:
+				row[j] = 'o'
+			}
+		}
+		rows[i] = string(row)
+	}
+	return "m=" + strings.Join(rows, ",")
 }
 
 func decList(s string) [][]byte {
@@ -425,6 +510,15 @@ func doXkey(f []string) string {
 	return "r=other"
 }
 
+func doShared(f []string) string {
+	base, cleanup, err := newBase(f[2])
+	if err != nil {
+		return "infra-error " + err.Error()
+	}
+	defer cleanup()
+	return sharedMatrix(realCipher(f[1]), base, f[3] == "1", hx.MustDec(f[4]), decList(f[5]), f[6] == "1", f[7], f[8])
+}
+
 // nsTree is the content every `ns` line starts from (written through the encrypted filespace).
 var nsTree = [][2]string{{"a/x.txt", "X-content-0123456789"}, {"a/b/y.txt", "Y"}, {"top.txt", "T-content"}}
 
@@ -540,6 +634,8 @@ func step(line string) string {
 		return withWatchdog(func() string { return doAes(f) })
 	case f[0] == "xkey" && len(f) == 12:
 		return withWatchdog(func() string { return doXkey(f) })
+	case f[0] == "shared" && len(f) == 9:
+		return withWatchdog(func() string { return doShared(f) })
 	case f[0] == "ns" && len(f) >= 3:
 		return withWatchdog(func() string { return doNs(f) })
 	}
@@ -779,6 +875,27 @@ func genXkey(w *bufio.Writer, r *hx.Rand) {
 		r.Pick([]string{"whole", "stream"}), hx.Enc(pt))
 }
 
+func genShared(w *bufio.Writer, r *hx.Rand) {
+	secret := []byte(r.Pick(secretPool))
+	if r.Chance(1, 4) {
+		secret = randBytes(r, 1+r.Intn(12))
+	}
+	var salts [][]byte
+	for k := 2 + r.Intn(3); k > 0; k-- {
+		salt := []byte(r.Pick(saltPool))
+		if r.Chance(1, 3) {
+			salt = randBytes(r, 1+r.Intn(6))
+		}
+		salts = append(salts, salt)
+	}
+	base := "mem"
+	if r.Chance(1, 6) {
+		base = "disk"
+	}
+	fmt.Fprintf(w, "shared %s %s %d %s %s %d %s %s\n", r.Pick([]string{"raw", "tagged"}), base, r.Intn(2), hx.Enc(secret),
+		encList(salts), r.Intn(2), r.Pick([]string{"whole", "stream"}), r.Pick([]string{"whole", "stream"}))
+}
+
 var nsPaths = []string{"a", "a/x.txt", "a/b", "a/b/y.txt", "top.txt", "nope", "nope/deeper", "a/../top.txt", "", "/", "a/",
 	"/a/b/", "c/d", "a/x.txt/under", "../out"}
 var nsOps = []string{"copy", "copydirectory", "copyfile", "readdir", "isexist", "isfile", "isdir", "mkdirall", "remove",
@@ -836,6 +953,18 @@ func genSweeps(w *bufio.Writer, r *hx.Rand) {
 			genNs(w, r, op)
 		}
 	}
+	// filespaces side by side on shared buffers: salts of equal and of different lengths, with and without
+	// later mutation of the caller's buffers, both ciphers, both bases, all path pairs
+	for _, salts := range []string{"7361,7362", "7361,7362,7363", "73616c74,74", "74,73616c74", "-,74,7474", "7361,7361"} {
+		for _, kind := range []string{"raw", "tagged"} {
+			for _, mut := range []int{0, 1} {
+				for i, base := range []string{"mem", "disk"} {
+					wp, rp := []string{"whole", "stream"}[(i+mut)%2], []string{"whole", "stream"}[i]
+					fmt.Fprintf(w, "shared %s %s %d 736563726574 %s %d %s %s\n", kind, base, mut, salts, mut, wp, rp)
+				}
+			}
+		}
+	}
 }
 
 func gen(w *bufio.Writer, n int) {
@@ -847,8 +976,10 @@ func gen(w *bufio.Writer, n int) {
 			genFs(w, r)
 		case k < 16:
 			genAes(w, r)
-		case k < 18:
+		case k < 17:
 			genXkey(w, r)
+		case k < 18:
+			genShared(w, r)
 		default:
 			genNs(w, r, r.Pick(nsOps))
 		}
